@@ -39,3 +39,44 @@ Theorem C20_merge_restores_the_original :
                    m_get field_table uni_lower n_content_length (r_fields m) = itoa reflen.
 Proof. exact merge_restores. Qed.
 Print Assumptions C20_merge_restores_the_original.
+
+(** "... the original's payload digest and the reference fields of the RevisitRef": the revisit
+    carries the original's payload digest (for a resource record without one, under the
+    identical-payload profile, its block digest: the payload of a resource IS its block), the
+    target id of the reference - in angle brackets whether or not it was given with them -, the
+    target URI and date when the reference has them, and WARC-Truncated: length. *)
+Require Import Model.Policy Proofs.RevisitRefProofs Proofs.TrimProofs.
+Theorem C20_revisit_carries_payload_digest_and_reference :
+  forall uni_lower uni_upper H profile_of o r ref rev,
+    to_revisit field_table uni_lower uni_upper H profile_of o r ref = Some rev ->
+    m_get field_table uni_lower n_payload_digest (r_fields rev) = expected_payload_digest uni_lower profile_of r ref /\
+    (forall v, id_value (rf_id ref) = Some v -> m_get field_table uni_lower n_refers_to (r_fields rev) = v) /\
+    (rf_uri ref <> [] -> m_get field_table uni_lower n_refers_to_uri (r_fields rev) = rf_uri ref) /\
+    (rf_date ref <> [] -> m_get field_table uni_lower n_refers_to_date (r_fields rev) = rf_date ref) /\
+    m_get field_table uni_lower n_truncated (r_fields rev) = s_length.
+Proof. intros ul uu H pf. exact (revisit_carries_reference ul uu H pf). Qed.
+Print Assumptions C20_revisit_carries_payload_digest_and_reference.
+
+(** RevisitRef() of the derived revisit is the reference it was made from (a complete reference:
+    id without angle brackets at its ends, URI and date present - what CreateRevisitRef returns
+    for a record that has them) *)
+Theorem C20_revisit_ref_reads_back_the_reference :
+  forall uni_lower uni_upper H profile_of o r ref rev,
+    to_revisit field_table uni_lower uni_upper H profile_of o r ref = Some rev ->
+    rf_id ref <> [] -> edge_ok is_angle (rf_id ref) = true -> rf_uri ref <> [] -> rf_date ref <> [] ->
+    revisit_ref field_table uni_lower rev = Some ref.
+Proof. intros ul uu H pf. exact (revisit_ref_reads_back ul uu H pf). Qed.
+Print Assumptions C20_revisit_ref_reads_back_the_reference.
+
+From Coq Require Import String.
+Local Open Scope string_scope.
+(** non-vacuity: a response record, the identical-payload profile, a complete reference *)
+Definition ex20_rec : record :=
+  mkrec (bs "1.1") 2 2 [(bs "WARC-Type", bs "response"); (bs "WARC-Payload-Digest", bs "sha1:AAAA"); (bs "Content-Length", bs "7")]
+        (mkblk BHttpResp (bs "H") (bs "payload")).
+Definition ex20_ref : revref := mkref (bs "p") (bs "urn:uuid:1") (bs "http://a/") (bs "2020-01-01T00:00:00Z").
+Definition ex20_opts := mkopts Fail Fail Fail Fail false true true true true true false false (bs "sha1") Base16.
+Example C20_hypotheses_are_satisfiable :
+  (exists rev, to_revisit field_table (fun s => s) (fun s => s) (fun _ _ => []) (fun _ => PIdentical) ex20_opts ex20_rec ex20_ref = Some rev) /\
+  rf_id ex20_ref <> [] /\ edge_ok is_angle (rf_id ex20_ref) = true /\ rf_uri ex20_ref <> [] /\ rf_date ex20_ref <> [].
+Proof. split; [eexists; vm_compute; reflexivity|]. repeat split; try discriminate. Qed.
